@@ -232,7 +232,7 @@ class Loader:
             return self.shims[top]
         if top == "math":
             return SymMath()
-        if top in ("itertools", "time", "warnings", "inspect", "typing", "collections", "functools", "os", "sys", "re", "gzip", "io"):
+        if top in ("itertools", "time", "warnings", "inspect", "typing", "collections", "functools", "os", "sys", "re", "gzip", "io", "contextlib", "operator", "dataclasses", "enum", "abc", "numbers", "copy", "heapq", "bisect", "string"):
             return builtins.__import__(name, globals, locals, fromlist, level)
         return _Stub(name)
 
